@@ -9,6 +9,8 @@ Ring 3: locality and break-cause checked on the real wrapper for random single-s
 """
 from __future__ import annotations
 
+import re
+
 import json
 
 import gen
@@ -286,6 +288,86 @@ def locality_oracle(ctx: Ctx, n: int) -> None:
                 break
 
 
+MD_TAGS = ["{% note %}", "{% /note %}", "<!-- c -->", "{{ v }}", "{# x #}", "{% field a=1 %}{% /field %}"]
+MD_LINE_STARTS = ["1986. It was", "|x| is", "- not a list", "2) then", "+ plus", "plain words", "More words here", "and so on", "| a | b |", "* star"]
+TAG_OPEN = re.compile(r"^(\{%|\{#|\{\{|<!--)")
+TAG_CLOSE = re.compile(r"(%\}|#\}|\}\}|-->)$")
+
+
+def md_break_cause(ctx: Ctx, n: int) -> None:
+    """BREAK_CAUSE through the Markdown layers: paragraphs of several source lines with template tags at line starts / ends / in the
+    middle, hard breaks, and continuation lines that merely look like block content; formatted in semantic mode at a width that
+    never forces a break.  Every line break of the output must be (a) after a word the sentence-end regex accepts, or (b) a hard
+    break, or (c) a newline of the SOURCE that stands directly before or after a template tag / HTML comment — or, within a
+    hard-break segment that has a tag at a line edge, next to a line that looks like a list item or table row (C06's clause)."""
+    lw, _ss = _lw()
+    from flowmark.linewrapping.sentence_split_regex import SENTENCE_END_RE
+    rng = ctx.rng
+    wrap = lw.line_wrap_by_sentence(width=400, is_markdown=True)
+    for _ in range(n):
+        lines = []
+        for k in range(rng.randint(2, 6)):
+            words = [rng.choice(MD_LINE_STARTS)] if (k and rng.random() < 0.5) else []
+            words += [rng.choice(["some", "words", "here", "text", "ends.", "Really?", "Yes!", "ok", "more", "(see)", "x"]) for _ in range(rng.randint(1, 6))]
+            r = rng.random()
+            if r < 0.25:
+                words.insert(0, rng.choice(MD_TAGS))
+            elif r < 0.5:
+                words.append(rng.choice(MD_TAGS))
+            elif r < 0.65:
+                words.insert(rng.randint(1, len(words)), rng.choice(MD_TAGS))
+            line = " ".join(words)
+            if k == 0 and TAG_OPEN.match(line):
+                line = "Start " + line          # a paragraph starting with a comment would be an HTML block
+            lines.append(line + rng.choice(["", "", "", "\\", "  "]))
+        lines[-1] = lines[-1].rstrip("\\ ")
+        text = "\n".join(lines)
+        out = wrap(text, "", "")
+        ctx.count(["md-break-cause", text], nontrivial="\n" in out, sample=False)
+        ctx.bump("md-break-cause")
+        src_tokens = text.replace("\\\n", " ").split()
+        # token index after which the source has a newline
+        # source newlines the tag layer may keep: directly before or after a tag; and, inside a hard-break segment that has a
+        # tag at a line edge, before or after a line that looks like block content (the list / table heuristics of the tag layer:
+        # "a list or table enclosed by tag lines stays a list or table")
+        BLOCKISH = re.compile(r"^([-*+] |\d+[.)] |\|)")
+        seg_of, seg = [], 0
+        for ln in lines:
+            seg_of.append(seg)
+            if ln.endswith("\\") or ln.endswith("  "):
+                seg += 1
+        bare = [ln.rstrip("\\ ") for ln in lines]
+        edge = {}
+        for k, ln in enumerate(bare):
+            if TAG_OPEN.match(ln) or TAG_CLOSE.search(ln):
+                edge[seg_of[k]] = True
+        src_nl, idx = set(), 0
+        for k, ln in enumerate(bare[:-1]):
+            idx += len(ln.split())
+            nxt_ln = bare[k + 1]
+            adj = TAG_CLOSE.search(ln) is not None or TAG_OPEN.match(nxt_ln) is not None
+            blockish = seg_of[k] == seg_of[k + 1] and edge.get(seg_of[k], False) and (BLOCKISH.match(nxt_ln) or BLOCKISH.match(ln))
+            if adj or blockish:
+                src_nl.add(idx - 1)
+        out_lines = out.split("\n")
+        j = -1
+        for li, ol in enumerate(out_lines[:-1]):
+            toks = ol.rstrip("\\").split()
+            j += len(toks)
+            nxt = out_lines[li + 1].split()
+            if not toks or not nxt:
+                continue
+            last, first = toks[-1], nxt[0]
+            hard = ol.endswith("\\") or ol.endswith("  ")
+            sent = SENTENCE_END_RE.search(last) is not None
+            tagadj = j in src_nl
+            if not (hard or sent or tagadj):
+                ctx.fail("BREAK_CAUSE (Markdown layers): a line break that is not after a sentence end, not a hard break, not a source "
+                         "newline next to a tag, and not forced by the width", {"text": text, "W": 400},
+                         {"after": last, "before": first, "out": out})
+                break
+
+
 def replay_findings(ctx: Ctx) -> None:
     lw, _ = _lw()
     for fid, e in ctx.kf.items():
@@ -305,9 +387,13 @@ def run(ctx: Ctx) -> None:
         ctx.guard("tie sentWrap", tie_sentwrap)
         ctx.guard("tie sentEnd", tie_sentend)
         ctx.guard("tie sentWrap(atoms)", tie_sentwrap_atoms)
+        from props import c06
+        ctx.guard("tie layers", c06.tie_layers)
     locality_oracle(ctx, ctx.scale(3000, 40000))
+    md_break_cause(ctx, ctx.scale(1500, 30000))
     ctx.assume("SENTENCE_END_RE is a parameter (per-word flags computed by the real regex); Markdown layers "
-               "(tags, hard breaks, atoms) are excluded from this tie and covered by C06/C01 ties")
+               "(tags, hard breaks, atoms) are excluded from the sentence-fold tie; their model is tied by `tie layers` (shared with C06) "
+               "and BREAK_CAUSE is checked through them on the real wrapper")
 
 
 def search(ctx: Ctx) -> None:
